@@ -84,6 +84,11 @@ CATALOGUE = [
      'old': "        except PyBufrKitError as e:\n            if not continue_on_error:\n                raise e\n",
      'new': "        except PyBufrKitError as e:\n            if not continue_on_error and not info_only:\n                raise e\n",
      'note': 'metadata-only scanning swallows failures even without continue-on-error'},
+    {'id': 'm-c12-skip-handler-unprotected', 'props': ['C12'], 'file': D,
+     'old': "                try:\n                    bufr_message = decoder.process(\n                        s[idx_start:], start_signature=None, info_only=True, *args, **kwargs)\n                    idx_start += bufr_message.length.value\n                except PyBufrKitError:\n                    idx_start += 1\n",
+     'new': "                bufr_message = decoder.process(\n                    s[idx_start:], start_signature=None, info_only=True, *args, **kwargs)\n                idx_start += bufr_message.length.value\n",
+     'note': 'the continue-on-error handler re-reads the header without protection: a message whose header is '
+             'unreadable (end of input inside sections 0-3, section 1 length damage) ends the scan with an error'},
     # ---- C17
     {'id': 'm-c17-last-match', 'props': ['C17'], 'file': MQ,
      'old': "        for section in sections:\n            for parameter in section:",
